@@ -127,3 +127,46 @@ func c03PeerKeys(c *Ctx) {
 		c.Observe("per-peer-key-complete", "peer-keyed shared maps found", "-", "no map of a shared service object is indexed by a value computed from the remote address inside a Handle method (the table may have moved behind helper methods; nothing to decide here)")
 	}
 }
+
+// c03LimiterState: the per-source limiter is one object per service, used by every handler goroutine at once. The
+// shared-memory analysis does not look inside it (its per-source buckets live in a sync.Map, keyed by the peer), so its
+// own methods are checked here: outside its constructor no method stores to a plain field of the limiter unless it holds
+// a mutex of the limiter. A spare bucket kept in a field and swapped on use is handed to two new peers at once when their
+// first datagrams arrive together; the two then share one allowance for good.
+func c03LimiterState(c *Ctx) {
+	p := c.P
+	const rule = "limiter-state-synchronised"
+	lt := p.Type("services", "Limiter")
+	if !c.Anchor(lt != nil, rule, "services.Limiter") {
+		return
+	}
+	n := 0
+	for _, fn := range p.FuncsIn("services") {
+		if fn.Blocks == nil || fn.Signature.Recv() == nil || NamedOf(fn.Signature.Recv().Type()) != lt {
+			continue
+		}
+		n++
+		bad := ""
+		for _, b := range fn.Blocks {
+			for _, in := range b.Instrs {
+				st, ok := in.(*ssa.Store)
+				if !ok {
+					continue
+				}
+				fa, ok := st.Addr.(*ssa.FieldAddr)
+				if !ok || NamedOf(fa.X.Type()) != lt {
+					continue
+				}
+				held, _ := c01HeldAt(fn, st, true, func(mu ssa.Value) bool {
+					f2, isFA := mu.(*ssa.FieldAddr)
+					return isFA && NamedOf(f2.X.Type()) == lt
+				})
+				if !held {
+					bad = "field " + fieldNameOf(fa) + " is assigned at " + p.InstrPos(st) + " without a mutex of the limiter held"
+				}
+			}
+		}
+		c.Check(bad == "", rule, shortFn(fn), p.Pos(fn.Pos()), "writes no unsynchronised field of the shared limiter", bad+": every handler goroutine of the service runs this method at once, so two peers whose first datagrams arrive together can be given the same bucket object and share one allowance from then on")
+	}
+	c.Floor(rule, 1, "(*Limiter).Allow")
+}
